@@ -167,6 +167,8 @@ def run(repo: Repo, rep: Report, tier: str) -> None:
                 recursive_items = True
         if (isinstance(r.value, ast.Name) and WL.root(r.value.id) == p_obj) or (isinstance(r.value, ast.Constant) and r.value.value is None) or "b64encode" in norm(vi):
             rep.ok("R16.3", sub, f"`return {v[:50]}`: primitive / cycle marker / encoded bytes", swt.loc(r))
+        elif isinstance(r.value, ast.Attribute) and r.value.attr in ("value", "_value_") and isinstance(r.value.value, ast.Name) and WL.root(r.value.value.id) == p_obj:
+            rep.ok("R16.3", sub, f"`return {v[:50]}`: the value of an enum member (a leaf)", swt.loc(r))
         elif "_remove_none_values" in norm(vi) or recursive_items:
             rep.ok("R16.3", sub, f"`return {v[:50]}`: None-valued keys are stripped (or items are serialised recursively)", swt.loc(r))
         else:
